@@ -2,6 +2,8 @@ import PetgraphModel.Model.Serde
 import PetgraphModel.Proofs.SerdeDe
 import PetgraphModel.Proofs.SerdeTrip
 import PetgraphModel.Proofs.SerdeExec
+import PetgraphModel.Proofs.C17W2Map
+import PetgraphModel.Proofs.C17W2MapC03
 /-
 C17 — serde round-trips graphs exactly and never yields a corrupt graph from bad input.
 
@@ -264,6 +266,150 @@ theorem C17_roundtrip_map_partial (m : GMap) (directed : Bool) (order : List Fie
         simp only [hm, Except.ok.injEq] at h
         subst h
         exact ⟨g, rfl, (deGraph_de hg).inv, hm⟩
+
+/-! ### the `GraphMap` round trip (wave 2)
+
+`C17_roundtrip_map_statement` is false as written, for two reasons that have nothing to do with the code:
+it lets in maps no `GraphMap` can be (an undirected map whose edge key is not the canonical `edge_key`, `a ≤ b`), and it
+has no capacity bound (D20 reaches `GraphMap` through `Graph<_,_,_,u32>`).  `C17_roundtrip_map` is the repaired
+statement: the two missing hypotheses added, every field order, and the loaded map determined completely. -/
+
+/-- the adjacency vector `from_graph` builds for node `k` out of an edge map: its incident edges in edge-map order,
+`(b, Outgoing)` for an edge `(k, b)`, `(a, Incoming)` for an edge `(a, k)` with `a ≠ k` (a self-loop is listed once) -/
+abbrev adjFrom := SerdeProofs.adjFrom
+/-- a `GraphMap` state of the C03 model (`GM.State`: node values and weights `Nat`) as a `GraphMap` of the serde model -/
+abbrev ofGM := SerdeProofs.ofGM
+
+/-- `C17_roundtrip_map_statement` is false as written: an "undirected map" with the non-canonical key `(2, 1)`
+satisfies its hypotheses, and is loaded back with the key `(1, 2)`.  (No `GraphMap` holds such a key: C03's invariant.) -/
+theorem C17_roundtrip_map_statement_false_witness : ¬ C17_roundtrip_map_statement := by
+  intro h
+  obtain ⟨w, m', h1, h2, _, h4⟩ := h { directed := false, nodes := [(1, []), (2, [])], edges := [((2, 1), 5)] }
+    (by intro a b w hm; simp at hm; obtain ⟨⟨rfl, rfl⟩, rfl⟩ := hm; decide) (by decide) (by decide)
+  have e1 : serMap { directed := false, nodes := [(1, []), (2, [])], edges := [((2, 1), 5)] } =
+      some { nodes := [1, 2], holes := [], prop := some false, edges := [some (1, 0, 5)] } := by decide
+  rw [e1] at h1
+  cases h1
+  have e2 : (match deMap false [.n, .h, .p, .e]
+      { nodes := [1, 2], holes := [], prop := some false, edges := [some (1, 0, 5)] } with
+    | .ok m' => decide (m'.edges = [((1, 2), 5)])
+    | .error _ => false) = true := by decide
+  have h2' : deMap false [.n, .h, .p, .e]
+      { nodes := [1, 2], holes := [], prop := some false, edges := [some (1, 0, 5)] } = .ok m' := h2
+  rw [h2'] at e2
+  simp only [decide_eq_true_eq] at e2
+  rw [e2] at h4
+  exact absurd h4 (by decide)
+
+/-- **round trip, `GraphMap`** (the repaired `C17_roundtrip_map_statement`): for every map with duplicate-free node
+keys, duplicate-free canonical edge keys (`a ≤ b` when undirected) whose edges join present nodes — what C03 proves of
+every reachable `GraphMap` — below the capacity of `u32`, and every field order, `de (ser m) = ok m'` where `m'` has the
+same edge type, the same nodes in the same order (the same `to_index`), the same edge map in the same order with the
+same weights, and each adjacency vector is `adjFrom`: the node's incident edges in edge-map order. -/
+theorem C17_roundtrip_map (m : GMap) (order : List Field)
+    (ho : Field.n ∈ order ∧ Field.p ∈ order ∧ Field.e ∈ order)
+    (hends : ∀ a b w, ((a, b), w) ∈ m.edges → (m.nodes.map (·.1)).contains a ∧ (m.nodes.map (·.1)).contains b)
+    (hn : (m.nodes.map (·.1)).Nodup) (he : (m.edges.map (·.1)).Nodup)
+    (hcanon : ∀ a b w, ((a, b), w) ∈ m.edges → m.directed = true ∨ a ≤ b)
+    (hcapN : m.nodes.length < 4294967295) (hcapE : m.edges.length < 4294967295) :
+    ∃ w m', serMap m = some w ∧ deMap m.directed order w = .ok m' ∧
+      m'.directed = m.directed ∧ m'.nodes.map (·.1) = m.nodes.map (·.1) ∧ m'.edges = m.edges ∧
+      m'.nodes = (m.nodes.map (·.1)).map (fun k => (k, adjFrom m.edges k)) := by
+  obtain ⟨w, h1, h2⟩ := roundtrip_map m order ho
+    (fun a b w hm => by simpa using hends a b w hm) hn he hcanon hcapN hcapE
+  exact ⟨w, _, h1, h2, rfl, rebuildMap_keys m, rfl, rfl⟩
+
+/-- the original statement with exactly the two missing hypotheses -/
+theorem C17_roundtrip_map_repaired (m : GMap)
+    (hends : ∀ a b w, ((a, b), w) ∈ m.edges → (m.nodes.map (·.1)).contains a ∧ (m.nodes.map (·.1)).contains b)
+    (hn : (m.nodes.map (·.1)).Nodup) (he : (m.edges.map (·.1)).Nodup)
+    (hcanon : ∀ a b w, ((a, b), w) ∈ m.edges → m.directed = true ∨ a ≤ b)
+    (hcapN : m.nodes.length < 4294967295) (hcapE : m.edges.length < 4294967295) :
+    ∃ w m', serMap m = some w ∧ deMap m.directed [.n, .h, .p, .e] w = .ok m' ∧
+      m'.nodes.map (·.1) = m.nodes.map (·.1) ∧ m'.edges = m.edges := by
+  obtain ⟨w, m', h1, h2, _, h4, h5, _⟩ := C17_roundtrip_map m [.n, .h, .p, .e] (by decide) hends hn he hcanon hcapN hcapE
+  exact ⟨w, m', h1, h2, h4, h5⟩
+
+/-- a loaded map is a fixed point: serializing what was loaded and loading it again gives the very same map, adjacency
+vectors included (so one round trip normalises the adjacency order and every further one is the identity). -/
+theorem C17_roundtrip_map_fixed_point (m : GMap) (order order' : List Field)
+    (ho : Field.n ∈ order ∧ Field.p ∈ order ∧ Field.e ∈ order)
+    (ho' : Field.n ∈ order' ∧ Field.p ∈ order' ∧ Field.e ∈ order')
+    (hends : ∀ a b w, ((a, b), w) ∈ m.edges → (m.nodes.map (·.1)).contains a ∧ (m.nodes.map (·.1)).contains b)
+    (hn : (m.nodes.map (·.1)).Nodup) (he : (m.edges.map (·.1)).Nodup)
+    (hcanon : ∀ a b w, ((a, b), w) ∈ m.edges → m.directed = true ∨ a ≤ b)
+    (hcapN : m.nodes.length < 4294967295) (hcapE : m.edges.length < 4294967295) :
+    ∃ w m' w', serMap m = some w ∧ deMap m.directed order w = .ok m' ∧
+      serMap m' = some w' ∧ deMap m'.directed order' w' = .ok m' := by
+  have hends' : ∀ a b w, ((a, b), w) ∈ m.edges → a ∈ m.nodes.map (·.1) ∧ b ∈ m.nodes.map (·.1) :=
+    fun a b w hm => by simpa using hends a b w hm
+  obtain ⟨w, h1, h2⟩ := roundtrip_map m order ho hends' hn he hcanon hcapN hcapE
+  have hk := rebuildMap_keys m
+  obtain ⟨w', h3, h4⟩ := roundtrip_map (rebuildMap m) order' ho'
+    (by rw [hk]; exact hends') (by rw [hk]; exact hn) he hcanon
+    (by have := congrArg List.length hk; simp only [List.length_map] at this; omega) hcapE
+  rw [rebuildMap_idem] at h4
+  exact ⟨w, _, w', h1, h2, h3, h4⟩
+
+/-- **round trip, `GraphMap`, for every state C03 reaches**: a `GraphMap` satisfying the C03 invariant (`C03T.Inv` =
+`GMProofs.Inv`; by `C03_all_histories` every state reachable by a call history does), below the capacity of `u32`,
+serializes, and its stream is loaded — in every field order — as exactly the map that `GraphMap::from_graph(m.into_graph())`
+builds in the C03 model; that map satisfies the C03 invariant again and denotes the same abstract simple graph (same
+nodes, same edges, same weights: `C03_into_from_graph`), with the same node and edge order. -/
+theorem C17_roundtrip_map_c03 (s : GM.State) (hI : GMProofs.Inv s) (order : List Field)
+    (ho : Field.n ∈ order ∧ Field.p ∈ order ∧ Field.e ∈ order)
+    (hcapN : s.nodes.length < 4294967295) (hcapE : s.edges.length < 4294967295) :
+    ∃ w s', serMap (ofGM s) = some w ∧ deMap s.directed order w = .ok (ofGM s') ∧
+      GM.roundTrip s = some s' ∧ GMProofs.Inv s' ∧ GMProofs.abs s' = GMProofs.abs s ∧
+      GM.nodesOf s' = GM.nodesOf s ∧ s'.edges = s.edges := by
+  obtain ⟨hn, he, hgood⟩ := ofGM_wf s hI
+  obtain ⟨w, h1, h2⟩ := roundtrip_map (ofGM s) order ho
+    (fun a b w hm => ⟨(hgood a b w hm).1, (hgood a b w hm).2.1⟩) hn he
+    (fun a b w hm => (hgood a b w hm).2.2)
+    (by simpa [SerdeProofs.ofGM] using hcapN) (by simpa [SerdeProofs.ofGM] using hcapE)
+  obtain ⟨s', h3, h4⟩ := rebuild_ofGM s hI
+  obtain ⟨s'', h5, h6, h7⟩ := GMProofs.roundTrip_spec s hI
+  rw [h3] at h5
+  cases h5
+  rw [h4] at h2
+  have hk : (SerdeProofs.ofGM s').nodes.map (·.1) = (SerdeProofs.ofGM s).nodes.map (·.1) := by
+    rw [← h4]; exact rebuildMap_keys _
+  have hE : (SerdeProofs.ofGM s').edges = (SerdeProofs.ofGM s).edges := by rw [← h4]; rfl
+  refine ⟨w, s', h1, h2, h3, h6, h7, ?_, ?_⟩
+  · exact ofGM_nodesOf_inj hk
+  · exact ofGM_edges_inj hE
+
+/-- the same for every history: after any sequence of public `GraphMap` calls on a fresh map (C03's `run`), the state
+round-trips through serde as above. -/
+theorem C17_roundtrip_map_all_histories (directed : Bool) (ops : List GM.Op) (order : List Field)
+    (ho : Field.n ∈ order ∧ Field.p ∈ order ∧ Field.e ∈ order) :
+    let s := (GM.run (GM.State.empty directed) ops).1
+    s.nodes.length < 4294967295 → s.edges.length < 4294967295 →
+    ∃ w s', serMap (ofGM s) = some w ∧ deMap s.directed order w = .ok (ofGM s') ∧
+      GM.roundTrip s = some s' ∧ GMProofs.Inv s' ∧ GMProofs.abs s' = GMProofs.abs s ∧
+      GM.nodesOf s' = GM.nodesOf s ∧ s'.edges = s.edges := by
+  intro s hcapN hcapE
+  exact C17_roundtrip_map_c03 s (GMProofs.run_spec _ ops (GMProofs.inv_empty directed)).1 order ho hcapN hcapE
+
+/-- D20 reaches `GraphMap`: a map holding exactly `u32::MAX` nodes serializes without panic, and its own stream is
+refused, in every field order — so the capacity hypothesis of `C17_roundtrip_map` cannot be dropped for the code as
+it is (`into_graph::<u32>()` allows `u32::MAX` nodes, `from_deserialized` refuses `>= u32::MAX`). -/
+theorem C17_roundtrip_map_capacity (m : GMap) (order : List Field)
+    (hends : ∀ a b w, ((a, b), w) ∈ m.edges → (m.nodes.map (·.1)).contains a ∧ (m.nodes.map (·.1)).contains b)
+    (hN : m.nodes.length = 4294967295) (hE : m.edges.length ≤ 4294967295) :
+    ∃ w, serMap m = some w ∧ ∃ e, deMap m.directed order w = .error e :=
+  deMap_refuses_full m order (fun a b w hm => by simpa using hends a b w hm) hN hE
+
+/-- non-vacuity: a directed map with reciprocal edges, a self-loop and a negative node value, adjacency vectors out of
+canonical order, satisfies the hypotheses of `C17_roundtrip_map`; it is loaded with the adjacency vectors normalised. -/
+example : (match (serMap { directed := true, nodes := [(1, [(2, false), (2, true)]), (2, [(1, true), (-3, true), (1, false)]),
+                                                        (-3, [(2, false), (-3, true)])],
+                           edges := [((2, 1), 5), ((1, 2), 6), ((-3, -3), 7), ((2, -3), 0)] }).map
+            (deMap true [.e, .p, .n]) with
+    | some (.ok m') => decide (m' = ⟨true,
+        [(1, [(2, false), (2, true)]), (2, [(1, true), (1, false), (-3, true)]), (-3, [(-3, true), (2, false)])],
+        [((2, 1), 5), ((1, 2), 6), ((-3, -3), 7), ((2, -3), 0)]⟩)
+    | _ => false) = true := by decide
 
 /-- a stream whose edge names a declared hole (the D18 witness) is refused -/
 example : (match deStable 255 true [.n, .h, .p, .e]
